@@ -120,6 +120,34 @@ def body_order_insensitive(body, sorted_lists=()):
     return True
 
 
+ORDER_FREE = {"sorted", "len", "any", "all", "sum", "set", "frozenset", "min", "max", "bool", "isinstance", "Counter"}
+
+
+def _inherits_order(e, unordered):
+    """does the value of e list elements in an order taken from one of the `unordered` locals?"""
+    if isinstance(e, ast.Call):
+        f = e.func
+        name = f.id if isinstance(f, ast.Name) else (f.attr if isinstance(f, ast.Attribute) else None)
+        if name in ORDER_FREE:
+            return name == "sorted" and any(k.arg == "key" for k in e.keywords) and any(_inherits_order(a, unordered) for a in e.args)
+        if name in ("list", "tuple", "fromkeys", "chain", "reversed", "enumerate", "dict", "OrderedDict", "filter", "map"):
+            return any(_inherits_order(a, unordered) for a in e.args)
+        return False
+    if isinstance(e, ast.Name):
+        return e.id in unordered
+    if isinstance(e, ast.BinOp) and isinstance(e.op, ast.Add):
+        return _inherits_order(e.left, unordered) or _inherits_order(e.right, unordered)
+    if isinstance(e, (ast.ListComp, ast.GeneratorExp)):
+        return any(_inherits_order(g.iter, unordered) for g in e.generators)
+    if isinstance(e, ast.IfExp):
+        return _inherits_order(e.body, unordered) or _inherits_order(e.orelse, unordered)
+    if isinstance(e, ast.Starred):
+        return _inherits_order(e.value, unordered)
+    if isinstance(e, (ast.List, ast.Tuple)):
+        return any(_inherits_order(x, unordered) for x in e.elts)
+    return False
+
+
 def obligations(prop="C12"):
     out = []
     for mod in MODULES:
@@ -165,6 +193,16 @@ def obligations(prop="C12"):
                     localsets.add(n.targets[0].id)
                 if isinstance(n, ast.AnnAssign) and isinstance(n.target, ast.Name) and ast.unparse(n.annotation).startswith(("Set[", "set[")):
                     localsets.add(n.target.id)
+            # an order is inherited: a local list built from an unordered local (concatenation, list(), dict.fromkeys, comprehension) has an undetermined order too,
+            # unless it goes through sorted() without a key or an order-insensitive reduction
+            changed = True
+            while changed:
+                changed = False
+                for n in ast.walk(fn):
+                    if isinstance(n, ast.Assign) and len(n.targets) == 1 and isinstance(n.targets[0], ast.Name) and n.targets[0].id not in localsets:
+                        if _inherits_order(n.value, localsets):
+                            localsets.add(n.targets[0].id)
+                            changed = True
             k = 0
             for n in ast.walk(fn):
                 iters = []
@@ -274,4 +312,40 @@ def structural(prop="C12"):
     ok = None not in (i_new, i_alloc, i_reg) and i_new < i_alloc < i_reg
     out.append(OR(id=f"{prop}.S.fortran_project._fortran_file.names_allocated_in_source_order", status=PROVED if ok else REFUTED, kind="S", role="post", backend="ast",
                   target="ford.fortran_project.Project._fortran_file", desc="identifiers (first come, first served) are requested for every entity of a file right after it is parsed, before anything else can ask"))
+    return out
+
+
+def template_obligations(prop="C12"):
+    """the templates iterate attributes of the entities: an attribute the parser turns into a set (read from the assignments of ford/sourceform.py and
+    ford/fortran_project.py on every run) has no order of its own, so a `{% for x in E.attr %}` over it must go through the `sort` filter"""
+    import os
+    out = []
+    names = set_attrs(loader.module_source("ford.sourceform")[1]) | set_attrs(loader.module_source("ford.fortran_project")[1])
+    try:
+        import jinja2, jinja2.nodes as N
+        env = jinja2.Environment()
+        tdir = os.path.join(os.path.dirname(loader.module_path("ford.output")), "templates")
+        k = 0
+        for name in sorted(os.listdir(tdir)):
+            if not name.endswith(".html"):
+                continue
+            tree = env.parse(open(os.path.join(tdir, name), encoding="utf-8").read())
+            for f in tree.find_all(N.For):
+                base, filters = f.iter, []
+                while isinstance(base, N.Filter):
+                    filters.append(base.name)
+                    base = base.node
+                if isinstance(base, N.Getattr) and base.attr in names and not (isinstance(base.node, N.Name) and base.node.name == "project"):
+                    ok = "sort" in filters
+                    r = OR(id=f"{prop}.S.templates.{name}.L{f.lineno}.loop_over_{base.attr}", status=PROVED if ok else REFUTED, kind="S", role="pre", backend="jinja2-ast",
+                           target=f"ford/templates/{name}", desc=f"`for ... in <entity>.{base.attr}` (line {f.lineno}): the attribute is a set in ford/sourceform.py; the loop iterates it sorted")
+                    if not ok:
+                        r.witness = {"template": name, "line": f.lineno, "filters": filters}
+                        r.detail = "the order of the rendered items follows the hash order of a set (object addresses, PYTHONHASHSEED for names of unknown modules)"
+                    out.append(r)
+                    k += 1
+        if k == 0:
+            out.append(OR(id=f"{prop}.S.templates.loops_over_sets.anchor", status=UNKNOWN, kind="S", target="ford/templates", detail=f"no template loop over one of {sorted(names)} found"))
+    except Exception as e:
+        out.append(OR(id=f"{prop}.S.templates.loops_over_sets", status=UNKNOWN, kind="S", target="ford/templates", detail=f"{type(e).__name__}: {e}"))
     return out
